@@ -10,8 +10,8 @@ VERIF = "/verif"
 
 # (name, file, old, new, occurrence (0-based) or None for unique, expected properties)
 M = []
-def m(name, file, old, new, props, occ=None):
-    M.append(dict(name=name, file=file, old=old, new=new, props=props, occ=occ))
+def m(name, file, old, new, props, occ=None, extra=None):
+    M.append(dict(name=name, file=file, old=old, new=new, props=props, occ=occ, extra=extra or []))
 
 # ---------------------------------------------------------------- mutex
 m("mutex-notified-drop-no-forward", "src/sync/mutex.rs",
@@ -274,6 +274,25 @@ m("list-reverse-drain-keeps-prev", "src/intrusive_double_linked_list.rs",
                 node_ref.next = None;""", ["C20", "C01"])
 
 
+# ---------------------------------------------------------------- type level (C16)
+m("c16-list-node-unpin", "src/intrusive_double_linked_list.rs",
+  "    _pin: PhantomPinned,\n}", "    _pin: core::marker::PhantomData<()>,\n}", ["C16"],
+  extra=[("src/intrusive_double_linked_list.rs", "            _pin: PhantomPinned,", "            _pin: core::marker::PhantomData,")])
+m("c16-heap-node-unpin", "src/intrusive_pairing_heap.rs",
+  "    _pin: PhantomPinned,\n}", "    _pin: core::marker::PhantomData<()>,\n}", ["C16"],
+  extra=[("src/intrusive_pairing_heap.rs", "            _pin: PhantomPinned,", "            _pin: core::marker::PhantomData,")])
+m("c16-revert-D2", "src/sync/mutex.rs", "T: Send + 'a> Send", "T: 'a> Send", ["C16"])
+m("c16-revert-D4", "src/channel/mpmc.rs", "    A: RingBuf<Item = T> + Send,\n{\n}\n\nimpl<MutexType: RawMutex, T, A> core::fmt::Debug", "    A: RingBuf<Item = T>,\n{\n}\n\nimpl<MutexType: RawMutex, T, A> core::fmt::Debug", ["C16"])
+m("c16-revert-D5-state-future", "src/channel/state_broadcast.rs", "unsafe impl<MutexType: Send + Sync, T: Clone + Send> Send", "unsafe impl<MutexType: Sync, T: Clone + Send> Send", ["C16"])
+m("c16-noop-lock-sync", "src/noop_lock.rs", "_phantom: PhantomData<*mut ()>,", "_phantom: PhantomData<()>,", ["C16"])
+m("c16-local-timer-future-send", "src/timer/timer.rs", "impl<'a> core::fmt::Debug for LocalTimerFuture<'a> {", "unsafe impl<'a> Send for LocalTimerFuture<'a> {}\n\nimpl<'a> core::fmt::Debug for LocalTimerFuture<'a> {", ["C16"])
+m("c16-mutex-sync-any-payload", "src/sync/mutex.rs", "unsafe impl<T: Send, MutexType: RawMutex + Sync> Sync", "unsafe impl<T, MutexType: RawMutex + Sync> Sync", ["C16"])
+m("c16-guard-sync-any-payload", "src/sync/mutex.rs", "unsafe impl<MutexType: RawMutex, T: Sync> Sync", "unsafe impl<MutexType: RawMutex, T> Sync", ["C16"])
+m("c16-oneshot-future-send-any-payload", "src/channel/channel_future.rs", "unsafe impl<'a, MutexType: Sync, T: Send> Send\n    for ChannelReceiveFuture<'a, MutexType, T>", "unsafe impl<'a, MutexType: Sync, T> Send\n    for ChannelReceiveFuture<'a, MutexType, T>", ["C16"])
+m("c16-timer-for-any-lock", "src/timer/timer.rs", "impl<MutexType: RawMutex> Timer for GenericTimerService<MutexType>\nwhere\n    MutexType: Sync,\n{", "impl<MutexType: RawMutex> Timer for GenericTimerService<MutexType>\n{", ["C16"])
+m("c16-event-not-sync-anymore", "src/sync/manual_reset_event.rs", "unsafe impl<MutexType: RawMutex + Sync> Sync\n    for GenericManualResetEvent<MutexType>\n{\n}", "", ["C16"])
+
+
 def sh(cmd, **kw):
     return subprocess.run(cmd, shell=True, capture_output=True, text=True, **kw)
 
@@ -291,6 +310,12 @@ def apply(mu):
             idx = s.index(mu["old"], idx + 1)
         s = s[:idx] + mu["new"] + s[idx + len(mu["old"]):]
     open(p, "w").write(s)
+    for (f2, old2, new2) in mu.get("extra", []):
+        p2 = os.path.join(REPO, f2)
+        s2 = open(p2).read()
+        if s2.count(old2) != 1:
+            raise SystemExit("mutant %s: extra pattern occurs %d times" % (mu["name"], s2.count(old2)))
+        open(p2, "w").write(s2.replace(old2, new2))
 
 def revert():
     sh("git -C %s checkout -- ." % REPO)
